@@ -183,6 +183,43 @@ pub fn run(rep: &Report) {
     });
     rep.scope_done(json!({"scope": "depth chains <= 6 x 8 strategies x 3 cfgs", "tree_x_strategy": items2.len()}));
 
+    // wide credentials: hundreds of objects, i.e. more than 255 decoys in one credential
+    let wt = wide_trees();
+    let mut items3 = vec![];
+    for (ti, t) in wt.iter().enumerate() {
+        for s in wide_strategies(t) {
+            items3.push((ti, s));
+        }
+    }
+    par_for(rep, items3.len(), |i, l| {
+        let (ti, s) = &items3[i];
+        issue_and_collect(&wt[*ti], s, &cfgs[0], &st, l);
+        issue_and_collect(&wt[*ti], s, &cfgs[2], &st, l);
+    });
+    rep.scope_done(json!({"scope": "wide credentials (11 / 100 / 300 objects: up to ~1200 decoys in one credential) x 6 strategies", "tree_x_strategy": items3.len()}));
+    // long history on ONE issuer instance: every later credential still gets its decoys
+    {
+        let u = json!({"iss": crate::gen::ISS, "exp": crate::gen::EXP, "a": {"b": {"c": 1}, "d": [{"e": 2}, {"f": 3}]}, "g": {}});
+        let n = if quick { 150 } else { 1500 };
+        let mut l = Local::default();
+        let mut issuer = crate::drive::new_issuer(crate::keys::issuer_enc(Alg::HS256, 0), Some("HS256"));
+        for k in 0..n {
+            l.evals += 1;
+            let cfg = cfgs[if k % 4 == 3 { 2 } else { 0 }];
+            let strat = if k % 3 == 0 { Strat::All } else if k % 3 == 1 { Strat::Top } else { Strat::NoSd };
+            let out = crate::drive::issue(&mut issuer, &u, &strat, None, cfg.decoys, cfg.fmt);
+            let (cred, _) = pipeline::c05_oracle(&u, &strat, &cfg, &out);
+            if let Some(c) = cred {
+                for (class, site, detail) in pipeline::c12_oracle(&c) {
+                    let case = json!({"kind": "c12_history", "prop": "C12", "issuances": k + 1});
+                    l.violation(Violation::new("issue", &class, format!("history:{site}"), "reused_issuer", format!("issuance {} on one instance: {detail}", k + 1), case));
+                }
+                l.nontrivial += 1;
+            }
+        }
+        rep.merge(l);
+        rep.scope_done(json!({"scope": format!("one issuer instance, {n} consecutive issuances of a 6-object credential (decoys on, every 4th off; strategies rotating)")}));
+    }
     // inert clause: full pipeline with decoys on (holder and verifier results equal the model's, which has no decoys)
     let (n2, d2) = if quick { (3, 3) } else { (4, 3) };
     let on = |_: usize| vec![Cfg { fmt: Fmt::Compact, alg: Alg::HS256, decoys: true, hk: Hk::None }, Cfg { fmt: Fmt::Json, alg: Alg::HS256, decoys: true, hk: Hk::None }];
@@ -227,6 +264,29 @@ pub fn run(rep: &Report) {
 }
 
 /// Replays the order clause on a fixed small family (used only to confirm an order-leak violation).
+/// Replay of the long single-instance history up to the failing issuance.
+pub fn replay_history(case: &Value) -> Vec<Violation> {
+    let u = json!({"iss": crate::gen::ISS, "exp": crate::gen::EXP, "a": {"b": {"c": 1}, "d": [{"e": 2}, {"f": 3}]}, "g": {}});
+    let cfg_on = Cfg { fmt: Fmt::Compact, alg: Alg::HS256, decoys: true, hk: Hk::None };
+    let cfg_off = Cfg { decoys: false, ..cfg_on };
+    let n = case["issuances"].as_u64().unwrap_or(1) as usize;
+    let mut l = Local::default();
+    let mut issuer = crate::drive::new_issuer(crate::keys::issuer_enc(Alg::HS256, 0), Some("HS256"));
+    for k in 0..n {
+        let cfg = if k % 4 == 3 { cfg_off } else { cfg_on };
+        let strat = if k % 3 == 0 { Strat::All } else if k % 3 == 1 { Strat::Top } else { Strat::NoSd };
+        let out = crate::drive::issue(&mut issuer, &u, &strat, None, cfg.decoys, cfg.fmt);
+        if k + 1 == n {
+            if let (Some(c), _) = pipeline::c05_oracle(&u, &strat, &cfg, &out) {
+                for (class, site, detail) in pipeline::c12_oracle(&c) {
+                    l.violation(Violation::new("issue", &class, format!("history:{site}"), "reused_issuer", detail, case.clone()));
+                }
+            }
+        }
+    }
+    l.violations()
+}
+
 /// Replay of a run-level digest repetition: 4 threads x 50 issuances of the case's claims.
 pub fn replay_run_dup(case: &Value) -> Vec<Violation> {
     let u = case["claims"].clone();
